@@ -148,7 +148,7 @@ def run_case(case, drv):
             if isinstance(dec, str) or sorted(dec) != sorted(routes):
                 res.fail("arc:decode", f"get_routes gives {core.jsonable(dec)}; the selected moves are the routes {core.jsonable(routes)}")
                 break
-            rep = drv.ask(f"arc.decode {inst} {fl(x)}")
+            rep = drv.ask(f"arc.decode {inst} {fl(FU.vec_to_model(md.get('order') if st == 'ok' else None, x))}")
             head, groups = core.split_reply(rep)
             if head != "ok":
                 res.disagree("decode status", "ok", head)
